@@ -79,6 +79,8 @@ type sim struct {
 	rng      rng
 	maprng   rng
 	finerng  rng
+	curOp    string
+	curMut   bool
 	tapePos  int
 	stats    Stats
 	trace    traceHasher
@@ -272,6 +274,7 @@ func (m *sim) point(op string, mut bool) {
 		return
 	}
 	// candidates: cur first, then runnable in creation order
+	m.curOp, m.curMut = op, mut
 	idx := m.choose(len(m.runnable)+1, true)
 	if idx == 0 {
 		return
@@ -313,6 +316,16 @@ func (m *sim) choose(n int, curFirst bool) int {
 		c = m.sticky(n, curFirst, 50)
 	case m.plan.Strategy == "sticky90":
 		c = m.sticky(n, curFirst, 90)
+	case m.plan.Strategy == "winpre":
+		// window-directed preemption: leave the running goroutine right after it
+		// released a lock or right before it mutates shared state (where
+		// check-then-act windows are), otherwise mostly keep running
+		hot := curFirst && (m.curMut || strings.HasSuffix(m.curOp, "unlock"))
+		if hot {
+			c = m.sticky(n, curFirst, 40)
+		} else {
+			c = m.sticky(n, curFirst, 93)
+		}
 	case strings.HasPrefix(m.plan.Strategy, "pct"):
 		c = m.pct(n, curFirst)
 	default:
@@ -396,6 +409,7 @@ func (m *sim) block(reason string) {
 	if len(m.runnable) == 0 {
 		m.deadlock()
 	}
+	m.curOp, m.curMut = "block", false
 	idx := m.choose(len(m.runnable), false)
 	m.switchTo(m.runnable[idx], false)
 	g.blocked = false
